@@ -62,3 +62,23 @@ Proof.
   exists (match enc c01_example with Some b => b | None => [] end).
   split; vm_compute; reflexivity.
 Qed.
+
+(* ---- durations (fix 5a7198d) ---- *)
+(* the pinned writer (xsd.Marshal of go-xsd-duration) did not write what the reader reads back: 29 days went out as
+   "P1M" and came back as 30 days; the witness is replayed on the code by the harness probes *)
+Theorem C01_duration_pinned_refuted : exists d : Z,
+  (d mod 1000000000 = 0)%Z /\ d <> 0%Z /\
+  exists b, JsonLeaf.fmt_xsd_duration_pinned d = Some b /\ JsonDec.parse_xsd_duration b <> Some d.
+Proof.
+  exists (29 * 86400 * 1000000000)%Z. split; [reflexivity|]. split; [discriminate|].
+  eexists. split; [vm_compute; reflexivity|]. vm_compute. discriminate.
+Qed.
+(* the repaired writer on the same witness and on the boundaries of the month / year rounding *)
+Example C01_duration_witnesses_repaired :
+  forallb (fun days => match JsonLeaf.fmt_xsd_duration (days * 86400 * 1000000000 + 5000000000) with
+                       | Some b => match JsonDec.parse_xsd_duration b with
+                                   | Some d => (d =? days * 86400 * 1000000000 + 5000000000)%Z
+                                   | None => false end
+                       | None => false end)
+          [0; 1; 27; 28; 29; 30; 31; 59; 335; 336; 340; 355; 356; 357; 385; 3650; 106751]%Z = true.
+Proof. vm_compute. reflexivity. Qed.
